@@ -242,10 +242,10 @@ type encBuf struct {
 }
 
 type encWrite struct {
-	lo   int64
-	len  string // "Some n" | "None"
-	src  string
-	seq  int
+	lo  int64
+	len string // "Some n" | "None"
+	src string
+	seq int
 }
 
 func (t *codecTr) translateBytes(fd *ast.FuncDecl, recv string) string {
@@ -455,7 +455,15 @@ func (t *codecTr) translateBytes(fd *ast.FuncDecl, recv string) string {
 		strings.Join(guards, "; "), base, rest, strings.Join(ws, ";\n                  "), strings.Join(us, "; "))
 }
 
-func translateCodecs(repo string, ints map[string]int64) string {
+func translateCodecs(repo string, ints map[string]int64) (res string) {
+	defer func() {
+		if r := recover(); r != nil {
+			noDec := `{| d_guards := []; d_fields := []; d_unknown := ["the translator failed"] |}`
+			noEnc := `{| e_guards := []; e_base := 0; e_rest := None; e_writes := []; e_unknown := ["the translator failed"] |}`
+			res = "From Cctp Require Import Gen.CodecIR.\n\nDefinition go_message_parse : dec_ir := " + noDec + ".\nDefinition go_message_bytes : enc_ir := " + noEnc +
+				".\nDefinition go_burn_parse : dec_ir := " + noDec + ".\nDefinition go_burn_bytes : enc_ir := " + noEnc + ".\n"
+		}
+	}()
 	t := &codecTr{fset: token.NewFileSet(), ints: ints}
 	out := map[string]string{}
 	for _, f := range []string{"x/cctp/types/message.go", "x/cctp/types/burn_message.go"} {
